@@ -52,7 +52,7 @@ try:
                 os.makedirs(os.path.dirname(dst), exist_ok=True)
                 shutil.copy(os.path.join(d, demo[0]), dst)
                 pkgdir = os.path.dirname(loc) or "."
-                rc, out = sh("go test -vet=off -count=1 -run 'Seed|Demo' ./%s/" % pkgdir, cwd=tree, timeout=900)
+                rc, out = sh("go test -tags verif -vet=off -count=1 -run 'Seed|Demo' ./%s/" % pkgdir, cwd=tree, timeout=900)
                 res["demo_%s_passes" % name] = rc == 0
                 os.remove(dst)
         res["demo_confirms"] = res.get("demo_clean_passes") is True and res.get("demo_mutant_passes") is False
